@@ -60,6 +60,8 @@ func ConfTag(c *sdl.Conf) string {
 		key, val = "value", "#{${"+c.Keys[0]+"}}"
 	case "sumDef":
 		key, val = "value", "#{${"+c.Keys[0]+":"+c.Default+"}+${"+c.Keys[1]+"}}"
+	case "div":
+		key, val = "value", "#{${"+c.Keys[0]+"} / ${"+c.Keys[1]+"}}"
 	case "cmp":
 		key, val = "value", "#{${"+c.Keys[0]+"} > ${"+c.Keys[1]+"}}"
 	case "tern":
@@ -272,7 +274,7 @@ func EmitAlt(progs []*sdl.Program) string {
 const sealedHidden = 24
 
 // confGoTypes: non-scalar Go types of configuration fields (SDL name -> Go type).
-var confGoTypes = map[string]string{"ints": "[]int", "intp": "*int", "dur": "simrt.Dur", "strmap": "map[string]string", "cfgpv": "*simrt.CfgPV"}
+var confGoTypes = map[string]string{"float": "float64", "ints": "[]int", "intp": "*int", "dur": "simrt.Dur", "strmap": "map[string]string", "cfgpv": "*simrt.CfgPV"}
 
 func emitType(b *strings.Builder, p *sdl.Program, t *sdl.Type) {
 	if t.Local {
@@ -360,7 +362,13 @@ func emitType(b *strings.Builder, p *sdl.Program, t *sdl.Type) {
 	}
 	if t.Logger {
 		c := getCarrier(t.LogEmbed)
+		if t.Logger2 != "" && t.Log2First {
+			c.fields = append(c.fields, fmt.Sprintf("Log2 syslog.Logger `logger:%q`", t.Logger2))
+		}
 		c.fields = append(c.fields, "Log syslog.Logger `logger:\"\"`")
+		if t.Logger2 != "" && !t.Log2First {
+			c.fields = append(c.fields, fmt.Sprintf("Log2 syslog.Logger `logger:%q`", t.Logger2))
+		}
 	}
 	for _, cu := range t.Custom {
 		c := getCarrier(cu.Embed)
